@@ -116,7 +116,7 @@ impl<'a> Decoder<'a> {
             strings: Vec::new(),
             marks: Vec::new(),
             depth: 0,
-            fuel: 8_000_000,
+            fuel: 2_000_000,
             record_marks: true,
             probes: BTreeMap::new(),
         }
